@@ -147,11 +147,15 @@ where
         let file = file.into();
         self.working_dir = file.parent().unwrap().to_path_buf();
         let ptr = self.environment.borrow_mut().get_ops_for_path(&file)?;
-        // The one output per file rule is per build of an entry file. This
-        // file may have been imported by a file built earlier in this same
-        // invocation, and so may a library whose module writes an output
-        // when this file instantiates it.
-        self.environment.borrow_mut().out_lock.clear();
+        // Every entry file is built as if it were built alone. The one output
+        // per file rule is per build, and so are the values of the files it
+        // imports: an import served from the cache of an earlier build would
+        // skip the out statements and the assertions of the imported file.
+        {
+            let mut env = self.environment.borrow_mut();
+            env.out_lock.clear();
+            env.val_cache.clear();
+        }
         let eval_result = self.eval_ops(ptr, Some(file.clone()));
         match eval_result {
             Ok(_) => {
